@@ -199,6 +199,9 @@ func (d *Decrypter) Start() {
 			}
 			if decoded.Payload.MHDR.MType == protocol.JoinRequest {
 				go func() {
+					if !d.verifyJoinRequestMIC(decoded) {
+						return
+					}
 					d.processJoinRequest(decoded)
 				}()
 				return
